@@ -4,7 +4,7 @@
 # Writes seeded/SWEEP.tsv: id, exit code, violation signatures.
 cd /verif
 OUT=${SWEEP_OUT:-/verif/seeded/SWEEP.tsv}
-WT=/tmp/wt/sweep
+WT=${SWEEP_WT:-/tmp/wt/sweep}
 ids=("$@"); [ ${#ids[@]} -eq 0 ] && ids=($(ls seeded | grep -E '^C[0-9]+-[0-9]+$'))
 git -C /repo worktree remove --force $WT 2>/dev/null; git -C /repo worktree add -q --detach $WT HEAD || exit 2
 : > "$OUT.tmp"
@@ -14,9 +14,9 @@ for id in "${ids[@]}"; do
   if ! (git -C $WT apply /verif/seeded/$id/patch.diff 2>/dev/null || git -C $WT apply --3way /verif/seeded/$id/patch.diff 2>/dev/null); then
     printf "%s\tpatch-does-not-apply\t\n" "$id" >> "$OUT.tmp"; continue
   fi
-  mkdir -p /tmp/sweep-ev /tmp/sweep-rp
+  EV=/tmp/sweep-ev-$$; RP=/tmp/sweep-rp-$$; mkdir -p $EV $RP
   log=/tmp/sweep-$id.log
-  VERIF_REPO=$WT VERIF_EVIDENCE_DIR=/tmp/sweep-ev VERIF_REPLAYS_DIR=/tmp/sweep-rp timeout 2400 ./check $P --tier quick > $log 2>&1
+  VERIF_REPO=$WT VERIF_EVIDENCE_DIR=$EV VERIF_REPLAYS_DIR=$RP timeout 2400 ./check $P --tier quick > $log 2>&1
   rc=$?
   sigs=$(grep "signature:" $log | sed 's/.*signature: //' | sort -u | head -4 | tr '\n' ';')
   printf "%s\t%s\t%s\n" "$id" "$rc" "$sigs" >> "$OUT.tmp"
@@ -24,4 +24,4 @@ for id in "${ids[@]}"; do
 done
 mv "$OUT.tmp" "$OUT"
 git -C /repo worktree remove --force $WT
-rm -rf /tmp/sweep-ev /tmp/sweep-rp /verif/.build/alt-* 2>/dev/null
+rm -rf /tmp/sweep-ev-$$ /tmp/sweep-rp-$$ 2>/dev/null
